@@ -29,6 +29,7 @@ P = "OQuPyVerif.Props.C20."
 THEOREMS = [P + "memo_table", P + "copy_table", P + "array_table", P + "cache_sound",
             P + "copy_independent", P + "no_mutation_layout_indep", P + "layout_indep",
             P + "reuse_eq_fresh", P + "arg_table", P + "arg_store_sound",
+            P + "return_table", P + "returns_fresh",
             "OQuPyVerif.Aliasing.reshapeView_insert_ones", "OQuPyVerif.Aliasing.sim_run",
             "OQuPyVerif.Aliasing.static_run", "OQuPyVerif.Aliasing.inv_step"]
 
@@ -386,12 +387,52 @@ def api_table(rng):
         return [x for x in c.get_single_site_controls(1, False) if x is not None]
     T.append(("ChainControl.add_single_site_control(control)", None, sup, chain_control, {}))
 
+    tt_sys, tt_bath, tt_pt, tt_corr = ttbc_fixture()
+
+    def ttbc(method):
+        def call(a):
+            t = oqupy.bath_dynamics.TwoTimeBathCorrelations(
+                tt_sys, tt_bath, tt_pt, initial_state=op.spin_dm("z+"), system_correlations=a)
+            if method == "occupation":
+                return list(t.occupation(1.0, dw=0.1, progress_type="silent"))
+            return [t.correlation(1.0, 0.2, freq_2=0.5, time_2=0.3, dw=(0.1, 0.1),
+                                  progress_type="silent")]
+        return call
+    T.append(("TwoTimeBathCorrelations(system_correlations).occupation",
+              ("TwoTimeBathCorrelations.occupation", "self._system_correlations", 0), tt_corr,
+              ttbc("occupation"), {}))
+    T.append(("TwoTimeBathCorrelations(system_correlations).correlation",
+              ("TwoTimeBathCorrelations.correlation", "self._system_correlations", 0), tt_corr,
+              ttbc("correlation"), {}))
+
     def dyn_expect(a):
         d = oqupy.compute_dynamics(system=sysm, initial_state=rho, dt=0.1, num_steps=2,
                                    progress_type="silent")
         return [d.expectations(a)[1]]
     T.append(("Dynamics.expectations(operator)", None, h2, dyn_expect, {}))
     return T
+
+
+_TTBC = {}
+
+
+def ttbc_fixture():
+    """system, bath, a 3-step process tensor and the system correlations computed for it (they hold
+    NaN outside the time-ordered region) -- built once"""
+    if not _TTBC:
+        import oqupy
+        from oqupy import operators as op
+        from . import oq
+        sysm = oq.cheap_system()
+        corr = oqupy.PowerLawSD(alpha=0.1, zeta=1.0, cutoff=2.0, temperature=0.5)
+        bath = oqupy.Bath(0.5 * op.sigma("z"), corr)
+        pt = oqupy.pt_tempo_compute(bath=bath, start_time=0.0, end_time=0.3,
+                                    parameters=oqupy.TempoParameters(dt=0.1, epsrel=1e-5, dkmax=3),
+                                    progress_type="silent")
+        t = oqupy.bath_dynamics.TwoTimeBathCorrelations(sysm, bath, pt, initial_state=op.spin_dm("z+"))
+        t.generate_system_correlations(0.3, progress_type="silent")
+        _TTBC["v"] = (sysm, bath, pt, np.array(t._system_correlations))
+    return _TTBC["v"]
 
 
 def as_list(r):
@@ -436,15 +477,28 @@ def results_close(a, b, exact=False, rtol=1e-10):
 
 
 def site_index(tables, key):
-    for i, s in enumerate(tables["arrays"]):
-        if (s["func"], s["param"], s["rank"]) == key:
-            return i
-    return None
+    """indices of all paths (`func#k`) of the site"""
+    out = [i for i, s in enumerate(tables["arrays"])
+           if (s["func"].split("#")[0], s["param"], s["rank"]) == key]
+    return out or None
+
+
+def worst_answer(outs):
+    """of the model's answers for the paths of one site, the one that is not plainly fine"""
+    for o in outs:
+        parts = [p.strip() for p in o.split("|")]
+        if len(parts) != 3 or parts[1].startswith("err") or \
+                not ("same=1" in parts[1] and "written0=0" in parts[1]):
+            return o
+    return outs[0]
 
 
 def parse_tables(line):
-    memo, cop, arr, args = [x.strip() for x in line.split("||")]
-    out = {"memo": [], "copies": [], "arrays": [], "args": []}
+    memo, cop, arr, args, rets = [x.strip() for x in line.split("||")]
+    out = {"memo": [], "copies": [], "arrays": [], "args": [], "returns": []}
+    for tok in rets.split():
+        f = tok.split(":")
+        out["returns"].append({"func": f[0], "kind": f[1], "ok": f[2] == "ok=true"})
     for tok in args.split():
         f = tok.split(":")
         out["args"].append({"func": f[0], "param": f[1], "kind": f[2], "ok": f[3] == "ok=true"})
@@ -494,9 +548,9 @@ def api_lines(res, rng, tables):
             item = arr.itemsize
             parstr = ",".join("%s:%d" % kv for kv in pars.items()) or "-"
             n = arr.size
-            lines.append("site %d %d %s %s %s %s" % (
-                idx, arr.flags.writeable, csv(arr.shape), csv(s // item for s in arr.strides),
-                csv(range(1, n + 1)), parstr))
+            lines.append(["site %d %d %s %s %s %s" % (
+                i, arr.flags.writeable, csv(arr.shape), csv(s // item for s in arr.strides),
+                csv(range(1, n + 1)), parstr) for i in idx])
             exp.append(rec)
             meta.append(("site", name, lname))
     return lines, exp, meta
@@ -1119,6 +1173,121 @@ def oracle_table(func):
 
 
 # ---------------------------------------------------------------------------
+# (vi) arrays returned by the operator helpers
+# ---------------------------------------------------------------------------
+
+def return_calls():
+    """name -> zero-argument call, for every listed function"""
+    from oqupy import operators as op
+    from oqupy import util
+    sx, sz = np.array(op.sigma("x")), np.array(op.sigma("z"))
+    rho = np.array(op.spin_dm("y+"))
+    return {
+        "identity": lambda: op.identity(2), "sigma": lambda: op.sigma("y"),
+        "spin_dm": lambda: op.spin_dm("x-"), "create": lambda: op.create(3),
+        "destroy": lambda: op.destroy(3), "commutator": lambda: op.commutator(sx),
+        "acommutator": lambda: op.acommutator(sz), "left_super": lambda: op.left_super(sx),
+        "right_super": lambda: op.right_super(sx),
+        "left_right_super": lambda: op.left_right_super(sx, sz),
+        "preparation": lambda: op.preparation(rho),
+        "cross_commutator": lambda: op.cross_commutator(sx, sz),
+        "cross_acommutator": lambda: op.cross_acommutator(sx, sz),
+        "cross_left_right_super": lambda: op.cross_left_right_super(sx, sz, sz, sx),
+        "create_delta": lambda: util.create_delta(np.arange(8.0).reshape(2, 2, 2), [0, 1, 2, 2]),
+    }
+
+
+def library_fingerprint():
+    """values of library objects that are built from the operator helpers"""
+    import oqupy
+    from oqupy import operators as op
+    from . import oq
+    h = 0.5 * op.sigma("x") + 0.2 * op.sigma("z")
+    b = oqupy.Bath(0.5 * op.sigma("z"), oqupy.CustomCorrelations(oq.corr_fn))
+    tsys = oqupy.TimeDependentSystem(lambda t: h, gammas=[lambda t: 0.1],
+                                     lindblad_operators=[lambda t: op.sigma("-")])
+    out = [op.commutator(h), op.acommutator(h), op.left_super(h), op.right_super(h),
+           op.cross_commutator(h, h), op.cross_acommutator(h, h), op.preparation(op.spin_dm("z+")),
+           oqupy.System(h, gammas=[0.1], lindblad_operators=[op.sigma("-")]).liouvillian(),
+           tsys.liouvillian(0.1), b.coupling_comm, b.coupling_acomm,
+           oq.cheap_tempo(0.0, 0.1).compute(0.2, progress_type="silent").states]
+    return [np.array(x) for x in out]
+
+
+def observe_return(name, call):
+    """call twice, edit the first result in place, call again, rebuild library objects; the edit
+    is undone afterwards.  -> dict"""
+    r1 = call()
+    pristine = np.array(r1)
+    r2 = call()
+    obs = {"distinct_objects": r1 is not r2, "share_memory": bool(np.shares_memory(r1, r2)),
+           "writeable": bool(r1.flags.writeable)}
+    before = library_fingerprint()
+    edited = False
+    try:
+        if r1.flags.writeable:
+            r1[...] = 7.0
+            edited = True
+        r3 = call()
+        obs["call_after_edit_pristine"] = bool(np.array_equal(np.array(r3), pristine))
+        after = library_fingerprint()
+        # (the Tempo run is not bit-reproducible run to run: 1e-12)
+        obs["library_objects_unaffected"] = all(np.allclose(x, y, rtol=1e-12, atol=1e-14)
+                                                for x, y in zip(before, after))
+    finally:
+        if edited:
+            r1[...] = pristine
+    obs["problems"] = [k for k, good in (("distinct_objects", obs["distinct_objects"]),
+                                         ("share_memory", not obs["share_memory"]),
+                                         ("call_after_edit_pristine", obs["call_after_edit_pristine"]),
+                                         ("library_objects_unaffected", obs["library_objects_unaffected"]))
+                       if not good]
+    return obs
+
+
+def return_lines(res, tables):
+    calls = return_calls()
+    lines, jobs = [], []
+    for i, s in enumerate(tables["returns"]):
+        if s["func"] not in calls:
+            res.disagree("no call known for the listed function " + s["func"], s)
+            continue
+        lines.append("ret %d call;call;write 0 9;call" % i)
+        jobs.append(s["func"])
+        res.count("returned-array:" + s["kind"])
+    for name in calls:
+        if name not in [s["func"] for s in tables["returns"]]:
+            res.disagree("function %s is not in the generated return table" % name, {"func": name})
+    return lines, jobs
+
+
+def judge_return(res, name, line, got):
+    try:
+        obs = observe_return(name, return_calls()[name])
+    except Exception as e:      # noqa: BLE001
+        obs = {"problems": ["raises " + exc_kind(e)], "share_memory": None,
+               "call_after_edit_pristine": None}
+    res.case(line + " " + name, True, {"op": (line + " " + name)[:160], "impl": json.dumps(obs)[:120],
+                                      "model": got[:120]})
+    a = got.split(";")
+    if len(a) != 4 or "bad-op" in a:
+        res.disagree("model could not run " + line, {"func": name, "model": got})
+        return
+    model_shared = a[0].split("@")[1] == a[1].split("@")[1]
+    model_pristine = a[3].split("@")[0] == "1"
+    if model_shared != bool(obs["share_memory"]) or model_pristine != bool(obs["call_after_edit_pristine"]) \
+            or (not model_shared and obs["problems"]):
+        res.disagree("returned array of %s: implementation %s, model shared=%s pristine-after-edit=%s"
+                     % (name, json.dumps(obs)[:200], model_shared, model_pristine),
+                     {"func": name, "impl": obs, "model": got})
+
+
+def oracle_return(name):
+    obs = observe_return(name, return_calls()[name])
+    return obs if obs["problems"] else None
+
+
+# ---------------------------------------------------------------------------
 # whole computations with shared vs fresh objects
 # ---------------------------------------------------------------------------
 
@@ -1428,6 +1597,8 @@ def replay_case(payload):
         return bad
     if kind == "table":
         return replay_table_history(payload["history"])
+    if kind == "returned":
+        return oracle_return(payload["func"])
     if kind == "pt":
         return oracle_pt(payload["process_tensor"], payload.get("seed", 0))
     if kind == "layout":
@@ -1555,12 +1726,32 @@ def search(res, rng=None):
                             "get_cap_tensor twice per step, compute_dynamics and compute_correlations "
                             "twice; compare the stored arrays bytewise before/after and the two runs"})
 
-    for sec in (section_4, section_5, section_0, section_1, section_2, section_3):
+    def section_6():
+        # (8) arrays handed out by the operator helpers
+        for name in return_calls():
+            try:
+                bad = oracle_return(name)
+            except Exception as e:      # noqa: BLE001
+                bad = {"problems": ["raises " + exc_kind(e)]}
+            res.count("search:returned")
+            if bad is not None:
+                what = ("returned-array-aliases-internal-state"
+                        if (bad.get("share_memory") or not bad.get("distinct_objects", True))
+                        else "library-objects-change-after-editing-returned-array")
+                add("returned", "%s:operators.%s" % (what, name),
+                    {"kind": "returned", "func": name, "observed": bad,
+                     "how": "r1 = f(..); r2 = f(..) must be distinct arrays not sharing memory; "
+                            "r1[...] = 7; f(..) must still return the pristine value and "
+                            "commutator/acommutator/left_super/right_super/cross_*/preparation, "
+                            "System.liouvillian, TimeDependentSystem.liouvillian, Bath.coupling_comm/"
+                            "acomm and a small Tempo run built afterwards must be unchanged"})
+
+    for sec in (section_4, section_5, section_6, section_0, section_1, section_2, section_3):
         try:
             sec()
         except Exception as e:      # noqa: BLE001
             res.notes.append("search: %s raised %s" % (sec.__name__, exc_kind(e)))
-    order = ["table", "pt", "copy-after-eval-follows-original", "original-follows-copy-after-eval",
+    order = ["table", "pt", "returned", "copy-after-eval-follows-original", "original-follows-copy-after-eval",
              "old-value-after-set", "bath-copy-follows-original", "layout",
              "copy-ignores-own-attribute", "reuse", "history"]
     while any(found.get(k) for k in order):
@@ -1608,7 +1799,9 @@ def correspondence(res, tier, rng):
     h_lines, jobs = history_cases(res, rng, tier, tables, corpus_hist)
     t_lines, t_jobs = table_cases(res, rng, tier, tables, corpus_tab)
     p_lines, p_jobs, have_pt_sites = pt_lines(res, rng, tables)
-    send = lines + [l for l in a_lines if l is not None] + h_lines + t_lines + p_lines
+    r_lines, r_jobs = return_lines(res, tables)
+    send = lines + [x for l in a_lines if l is not None for x in l] + h_lines + t_lines + p_lines \
+        + r_lines
     out = fw.run_driver(PID, send)
     if len(out) != len(send):
         raise fw.Infra("driver returned %d lines for %d inputs" % (len(out), len(send)))
@@ -1624,8 +1817,9 @@ def correspondence(res, tier, rng):
     for line, rec, m in zip(a_lines, a_exp, a_meta):
         got = None
         if line is not None:
-            got = out[pos]
-            pos += 1
+            got = worst_answer(out[pos:pos + len(line)])
+            pos += len(line)
+            line = line[0]
         judge_api(res, line, rec, got, m)
     for (h, toks, plan), line in zip(jobs, h_lines):
         got = out[pos]
@@ -1638,6 +1832,9 @@ def correspondence(res, tier, rng):
     for name, obs, idx in p_jobs:
         judge_pt(res, name, obs, [out[pos + j] for j in idx], have_pt_sites)
     pos += len(p_lines)
+    for job, line in zip(r_jobs, r_lines):
+        judge_return(res, job, line, out[pos])
+        pos += 1
     for key, payload in computation_reuse(res, rng, tier):
         res.disagree("re-used objects give other results than fresh equal objects: " + key, payload)
 
@@ -1666,7 +1863,10 @@ def run(tier, seed, replay):
         "table bytes before vs after each call.  Process tensors: SimpleProcessTensors (rank-3/4 "
         "tensors, with/without square transforms): getters twice, compute_dynamics and "
         "compute_correlations twice, stored arrays bytewise before/after, vs the model's verdict on "
-        "every path of the getter sites.  Non-trivial = reshape/shape cases of "
+        "every path of the getter sites.  Returned arrays: every public function of oqupy.operators "
+        "and util.create_delta: two calls give distinct arrays not sharing memory, after editing the "
+        "first result a call and library objects built afterwards are unchanged (exact), vs the "
+        "model's verdict from the generated return table.  Non-trivial = reshape/shape cases of "
         "matching size, API cases, histories with a cache hit or a predicted stale value; distinct "
         "= distinct protocol line.")
     res.assumptions = [
@@ -1682,9 +1882,10 @@ def run(tier, seed, replay):
         "arrays retained by reference after the call (Tempo keeps initial_state, Control.add_single "
         "and Dynamics keep operands): a later in-place change made by the *user* is visible to the "
         "object; the check only shows that library calls do not write to them",
-        "arrays handed out by the library that alias internal state (System.liouvillian() returns the "
-        "memoised array itself, System.lindblad_operators a shallow list copy): user writes into "
-        "them are not modelled",
+        "arrays handed out by the library that alias internal state are covered for oqupy.operators "
+        "and util.create_delta only; elsewhere (System.liouvillian() returns the memoised array itself, "
+        "System.lindblad_operators a shallow list copy, get_mpo_tensor(transformed=False) the stored "
+        "tensor) user writes into them are not modelled",
         "process-tensor objects re-used across computations are covered by the computation-reuse "
         "runs only (no model), file-backed process tensors by C16",
         "lru_cache in oqupy/backends/tempo_backend.py (outside the anchors)",
